@@ -287,6 +287,7 @@ def judge(ctx, case, P, impl, outs):
                          impl["pairs"], model)
     else:
         ctx.skipped += 1
+    ctx.count("dist", ("compared:" if comparable else "skipped:") + case["kind"])
     if need_steps and "acc" in impl:
         macc = [core.parse_rat(x) for x in outs[2].split()]
         if len(macc) != len(impl["acc"]):
